@@ -65,18 +65,19 @@ Definition le_pow10_bits (bits : Z) : bool :=   (* |x| >= 10^21 *)
 Definition is_inf (bits : Z) : bool := (bits =? pinf_bits) || (bits =? ninf_bits).
 
 (* finding classes
-   1  String(x) near 1e21 / 1e-6: layout chosen by math.Log10 instead of by the digits
+   (1, 5, 7, 12 were repaired in otto: those numbers are no longer attached to any deviation)
+   1  -
    2  toString(radix) of an integer beyond +-2^63
    3  toString(radix) drops the fraction
    4  toFixed rounds ties to even instead of up
-   5  (-0).toFixed gives "-0..."
+   5  -
    6  toExponential writes the exponent with two digits
-   7  toExponential / toPrecision of +-Infinity
+   7  -
    8  toExponential rounds ties to even
    9  toPrecision is Go's %g
    10 Number(string) accepts Go-only syntax
    11 Number("0x...") at or beyond 2^63 is NaN
-   12 parseInt("-0") is +0
+   12 -
    13 parseInt beyond 2^63 accumulates in float64
    14 parseFloat deviations
    15 hex literal beyond 2^63 accumulates in float64
@@ -117,12 +118,12 @@ Definition verdict (c : case) : Z * Z :=
       let sp := to_fixed bits f in
       match md, sp with
       | RNone, _ | _, RNone => declined
-      | _, _ => judge res_eqb obs md sp (if bits =? nzero_bits then 5 else if le_pow10_bits bits then 1 else 4)
+      | _, _ => judge res_eqb obs md sp 4
       end
   | CExp bits f obs =>
       let md := m_to_exponential bits f in
       let sp := to_exponential bits f in
-      let cls := if is_inf bits then 7 else if res_eqb (res_unpad md) sp then 6 else 8 in
+      let cls := if res_eqb (res_unpad md) sp then 6 else 8 in
       match md, sp with
       | RNone, _ | _, RNone => declined
       | _, _ => judge res_eqb obs md sp cls
@@ -132,7 +133,7 @@ Definition verdict (c : case) : Z * Z :=
       let sp := to_precision bits p in
       match md, sp with
       | RNone, _ | _, RNone => declined
-      | _, _ => judge res_eqb obs md sp (if is_inf bits then 7 else 9)
+      | _, _ => judge res_eqb obs md sp 9
       end
   | CNum s obs same =>
       let md := m_parse_number s in
@@ -177,9 +178,9 @@ Definition verdict (c : case) : Z * Z :=
         else if kind =? 1 then (via m_parse_float (opt_res (value_string bits)),
                                 via parse_float (opt_res (num_to_string bits)), 1)
         else if kind =? 2 then (via m_parse_number (m_to_exponential bits (Some a)),
-                                via str_to_number (to_exponential bits (Some a)), if is_inf bits then 7 else 8)
+                                via str_to_number (to_exponential bits (Some a)), 8)
         else if kind =? 3 then (via m_parse_number (m_to_fixed bits a),
-                                via str_to_number (to_fixed bits a), if bits =? nzero_bits then 5 else 4)
+                                via str_to_number (to_fixed bits a), 4)
         else (via m_parse_number (m_to_precision bits a), via str_to_number (to_precision bits a), 9) in
       match md, sp with
       | Some md, Some sp => judge Z.eqb obs md sp cls
